@@ -3,7 +3,7 @@
    number of clients (id arguments unrestricted: nil, latest, stale, base, random, foreign),
    possibly containing Reopen steps; oracle_ok h is the freshness assumption on the ids
    produced by Uuid::new_v4.  `accepted` is read off the responses. *)
-From TSS Require Import Seq proofs.Chain proofs.Inv proofs.Agree proofs.Hist.
+From TSS Require Import Seq proofs.Chain proofs.Inv proofs.Agree proofs.Hist Http proofs.UrgencyArith proofs.HttpProps proofs.HttpReach proofs.HttpLib.
 
 (* no two accepted versions of a client share a parent *)
 Theorem C01_parents_unique : forall k cfg h c, oracle_ok h ->
@@ -34,3 +34,20 @@ Proof.
   unfold oracle_ok, ex_hist; cbn. unfold usedp; cbn.
   repeat split; intros [H|H]; try discriminate; repeat (destruct H as [H|H]; try discriminate); auto.
 Qed.
+
+(* the same as HTTP clients see it: after ANY HTTP history h (any routes, methods, headers, bodies,
+   clients; refused requests included), asking an allowed client's chain for the child of the
+   parent of its first accepted version, then of each accepted version in turn (one
+   get-child-version request each, whatever fresh environments Es), is answered 200 with exactly
+   the accepted versions — id, parent, payload — in acceptance order, and finally 404 (never 410).
+   `acc` = the versions accepted for c, read off the library view of h. *)
+Theorem C01_http_chain_walk : forall k cfg allow h c Es, cfg_ok cfg -> client_id_header allow (COk c) = inl c ->
+  let acc := accepted c (lib_of allow h) (responses k cfg (lib_of allow h)) in
+  acc <> [] -> length Es = S (length acc) ->
+  let walk := hgcvs c (combine (base_of acc :: ids_of acc) Es) in
+  horacle_ok (h ++ walk) ->
+  hresponses k cfg allow (h ++ walk) =
+  hresponses k cfg allow h ++
+  map (fun v => mkResp 200 (Some (v_id v)) (Some (v_parent v)) None (Some RTHistory) (v_data v) true) acc ++
+  [mkResp 404 None None None None [] true].
+Proof. exact http_chain_walk. Qed.
